@@ -3,7 +3,7 @@
 //!   s<dec> new_small_number   a<hex> new_atom   b<hex> byte-heap atom (new_substr of a byte atom)
 //!   p<i>.<j> new_pair         H<k> tree_hash    C<k> tree_hash_cached (shared cache)
 //!   V<k> visit_tree           G<k> cache.get    M<k> should_memoize   R fresh cache
-//! Correspondence ops: thash.seq, thash.fb, thash.curry, thash.ff
+//! Correspondence ops: thash.seq, thash.fb, thash.fbo, thash.curry, thash.curried, thash.ff
 //! Helper ops (implementation only): thash.ser, thash.modhash
 //! Oracle ops (the property itself, against an independent recursive SHA-256 tree hash):
 //!   thash.oracle, thash.ocurry
@@ -19,7 +19,7 @@ use clvm_utils::{
     TreeCache, TreeHash, TreeHasher,
 };
 use clvmr::allocator::{Allocator, NodePtr, SExp};
-use clvmr::serde::{node_from_bytes, node_to_bytes, node_to_bytes_backrefs};
+use clvmr::serde::{node_from_bytes, node_from_bytes_backrefs_old, node_to_bytes, node_to_bytes_backrefs};
 use vh::util::*;
 
 // ---------------------------------------------------------------- independent reference
@@ -216,10 +216,41 @@ fn run(name: &str, args: &[String]) -> Option<String> {
             Ok(h) => hexo(&h.to_bytes()),
             Err(_) => "ERR".into(),
         }),
+        "thash.fbo" => {
+            // the older stack-as-cons-list deserializer, followed by the memoizing hash
+            let mut a = Allocator::new();
+            Some(match node_from_bytes_backrefs_old(&mut a, &hx(&args[0])) {
+                Ok(n) => {
+                    let mut cache = TreeCache::default();
+                    hexo(&tree_hash_cached(&a, n, &mut cache).to_bytes())
+                }
+                Err(_) => "ERR".into(),
+            })
+        }
         "thash.curry" => {
             let ph = TreeHash::new(b32(&args[0]));
             let ahs: Vec<TreeHash> = args[1..].iter().map(|s| TreeHash::new(b32(s))).collect();
             Some(hexo(&curry_tree_hash(ph, &ahs).to_bytes()))
+        }
+        "thash.curried" => {
+            // the tree CurriedProgram::to_clvm builds, in plain serialization
+            let mut a = Allocator::new();
+            let nodes: Vec<NodePtr> = args.iter().map(|s| node_from_bytes(&mut a, &hx(s)).unwrap()).collect();
+            let program = nodes[0];
+            let arg_nodes = &nodes[1..];
+            let curried = match arg_nodes.len() {
+                0 => CurriedProgram { program, args: clvm_curried_args!() }.to_clvm(&mut a),
+                1 => CurriedProgram { program, args: clvm_curried_args!(arg_nodes[0]) }.to_clvm(&mut a),
+                2 => CurriedProgram { program, args: clvm_curried_args!(arg_nodes[0], arg_nodes[1]) }.to_clvm(&mut a),
+                3 => CurriedProgram { program, args: clvm_curried_args!(arg_nodes[0], arg_nodes[1], arg_nodes[2]) }
+                    .to_clvm(&mut a),
+                _ => {
+                    let args = curried_args_node(&mut a, arg_nodes);
+                    CurriedProgram { program, args }.to_clvm(&mut a)
+                }
+            }
+            .unwrap();
+            Some(hexo(&node_to_bytes(&a, curried).unwrap()))
         }
         "thash.modhash" => Some(hexo(&SINGLETON_TOP_LAYER_V1_1_HASH)),
         "thash.ff" => {
